@@ -164,6 +164,8 @@ int env_sc_errno[ENV_NSC];
 int (*env_sc_fault_hook)(int sc);
 unsigned long env_sc_calls[ENV_NSC];
 int env_fail_next_evfd_errno;
+int env_fail_next_evfd_thread = -1;
+int env_fail_evfd_sticky;                /* 1: the shortage lasts until the harness clears it (every creator fails) */       /* -1: whoever creates the next wake-up descriptor; else only that thread */
 int (*env_eintr_hook)(const char *what, int fd);
 void (*env_after_eagain_hook)(const char *what, int fd);
 int env_pipe_size;
@@ -376,9 +378,10 @@ static void shrink_pipe(int *fd)
 int ivw_pipe(int *fd)
 {
 	int r;
-	if (env_fail_next_evfd_errno) {
+	if (env_fail_next_evfd_errno && (env_fail_next_evfd_thread < 0 || (env_owner_hook && env_owner_hook() == env_fail_next_evfd_thread))) {
 		errno = env_fail_next_evfd_errno;
-		env_fail_next_evfd_errno = 0;
+		if (!env_fail_evfd_sticky)
+			env_fail_next_evfd_errno = 0;
 		return -1;
 	}
 	r = pipe(fd);
@@ -409,9 +412,10 @@ static int do_eventfd(unsigned int count, int flags, int sc)
 	int r;
 	if (sc_fails(sc))
 		return -1;
-	if (env_fail_next_evfd_errno) {
+	if (env_fail_next_evfd_errno && (env_fail_next_evfd_thread < 0 || (env_owner_hook && env_owner_hook() == env_fail_next_evfd_thread))) {
 		errno = env_fail_next_evfd_errno;
-		env_fail_next_evfd_errno = 0;
+		if (!env_fail_evfd_sticky)
+			env_fail_next_evfd_errno = 0;
 		return -1;
 	}
 	r = eventfd(count, flags);
